@@ -350,3 +350,9 @@ pub fn pool_of(n: usize) -> std::sync::Arc<ascent::rayon::ThreadPool> {
    let mut m = POOLS.get_or_init(|| Mutex::new(HashMap::new())).lock().unwrap();
    m.entry(n).or_insert_with(|| Arc::new(ascent::rayon::ThreadPoolBuilder::new().num_threads(n).build().unwrap())).clone()
 }
+
+/// a user-defined aggregator with TWO bound arguments: `agg it = argmin(cost, item) in offer(.., item, .., cost, ..)` yields the `item` of the
+/// lexicographically least `(cost, item)` pair (nothing on an empty group)
+pub fn argmin<'a>(inp: impl Iterator<Item = (&'a i64, &'a i64)>) -> impl Iterator<Item = i64> {
+   inp.map(|(c, i)| (*c, *i)).min().map(|(_, i)| i).into_iter()
+}
